@@ -1,1 +1,2 @@
+import RimuProofs.Props.C04
 import RimuProofs.Props.C05
